@@ -32,10 +32,12 @@ Fixpoint dedup (sd : Z -> Z) (seen : list Z) (posts : list Z) : list Z * list Z 
       else let '(s', k) := dedup sd (sd p :: seen) r in (s', p :: k)
   end.
 
-(* layers 0..n of reachable states with the ids seen so far: (layers, seen) *)
+(* layers 0..n of reachable states with the ids seen so far: (layers, seen).  The post-setUp state itself is
+   not "seen": it keeps the concrete setUp timestamp, so a state with the same id reached by a transaction
+   (fresh timestamp) is a different starting point and is explored. *)
 Fixpoint layers (sys : system) (s0 : Z) (n : nat) : list (list Z) * list Z :=
   match n with
-  | O => ([[s0]], [sid sys s0])
+  | O => ([[s0]], [])
   | S n' =>
       let '(ls, seen) := layers sys s0 n' in
       let '(seen', nxt) := dedup (sid sys) seen (flat_map (step sys) (last ls [])) in
